@@ -322,6 +322,13 @@ func realWiring(res *Result) {
 				Note: "socket type / framing differ from the documented scheme table"})
 		}
 	}
+	roundTrip := func(scheme, out string) {
+		res.Eval("real-roundtrip/"+scheme, true, scheme+" first exchange: "+out)
+		if out != "ok:h:abcd" {
+			res.Add(Finding{Kind: "property", Check: "real-wiring-roundtrip", Line: scheme + "://… ReadRegisters 16 1 answered by a valid reply", Impl: out, Expect: "ok:h:abcd",
+				Note: "a client of this scheme cannot complete an exchange over its documented socket type (half-working object)"})
+		}
+	}
 	// tcp-based
 	for _, scheme := range []string{"tcp", "rtuovertcp"} {
 		ln, err := net.Listen("tcp", "127.0.0.1:0")
@@ -339,13 +346,19 @@ func realWiring(res *Result) {
 			buf := make([]byte, 300)
 			c.SetReadDeadline(time.Now().Add(time.Second))
 			n, _ := c.Read(buf)
+			w := parseWire(isRTUKind(scheme), buf[:n])
+			if w.ok {
+				c.Write(w.frame(w.unit, w.fc, []byte{2, 0xab, 0xcd}))
+			}
 			got <- buf[:n]
+			time.Sleep(20 * time.Millisecond)
 			c.Close()
 		}()
 		mc, err := modbus.NewClient(&modbus.ClientConfiguration{URL: scheme + "://" + ln.Addr().String(), Timeout: 100 * time.Millisecond, Speed: 1000000, Logger: quietLog})
 		if err == nil && mc.Open() == nil {
-			op.Exec(mc)
+			out := op.Exec(mc)
 			report(scheme, "tcp", <-got)
+			roundTrip(scheme, out)
 			mc.Close()
 		} else {
 			res.Add(Finding{Kind: "property", Check: "real-wiring", Line: scheme, Impl: fmt.Sprint(err), Expect: "client opens"})
@@ -360,12 +373,16 @@ func realWiring(res *Result) {
 		}
 		mc, err := modbus.NewClient(&modbus.ClientConfiguration{URL: scheme + "://" + pc.LocalAddr().String(), Timeout: 100 * time.Millisecond, Speed: 1000000, Logger: quietLog})
 		if err == nil && mc.Open() == nil {
-			go op.Exec(mc)
+			outc := make(chan string, 1)
+			go func() { outc <- op.Exec(mc) }()
 			buf := make([]byte, 300)
 			pc.SetReadDeadline(time.Now().Add(time.Second))
-			n, _, _ := pc.ReadFromUDP(buf)
+			n, from, _ := pc.ReadFromUDP(buf)
 			report(scheme, "udp", buf[:n])
-			time.Sleep(120 * time.Millisecond)
+			if w := parseWire(isRTUKind(scheme), buf[:n]); w.ok && from != nil {
+				pc.WriteToUDP(w.frame(w.unit, w.fc, []byte{2, 0xab, 0xcd}), from) // the whole reply in one datagram
+			}
+			roundTrip(scheme, <-outc)
 			mc.Close()
 		} else {
 			res.Add(Finding{Kind: "property", Check: "real-wiring", Line: scheme, Impl: fmt.Sprint(err), Expect: "client opens"})
